@@ -3,7 +3,7 @@ C02 — helper lemmas: how a command can change the user table and the capabilit
 -/
 import LimnoriaModel.C02.Model
 import LimnoriaModel.C03.Lemmas
-import LimnoriaModel.C16.Lemmas
+import LimnoriaModel.C16.Reload
 namespace C02
 open Py
 
@@ -346,5 +346,373 @@ theorem body_caps (cfg : Cfg) (st : St) (pfx : Str) (c : Cmd) (hc : c ≠ .flush
                   rw [hx, this]
               · exact Or.inl ⟨p.2, hp, hx⟩
         · exact lift (keeps_refl st)
+
+/-! ## the invariant that makes flush+reload harmless -/
+
+open C16 in
+/-- every stored field is free of line breaks (a hostmask may end with one LF), capabilities are
+clean lower-case words, and a record left in the reader's class attribute is harmless -/
+structure Inv (st : St) : Prop where
+  users : ∀ p ∈ st.users, SafeUser p.2
+  cu : ∀ c, st.cu = some c → SafeUser c.u
+  cuok : CuOk st.cu
+
+/-- contract of the `saltHash` parameter: its values contain no line break -/
+def HashSafe (cfg : Cfg) : Prop := ∀ p, C16.noBreak (cfg.hash p)
+
+def SafeUsers (st : St) : Prop := ∀ p ∈ st.users, C16.SafeUser p.2
+
+theorem noBreak_of_not_hasLineBreak {v : Str} (h : C16.hasLineBreak v = false) : C16.noBreak v := by
+  intro c hc
+  simp only [C16.hasLineBreak, List.any_eq_false, Bool.or_eq_true, decide_eq_true_eq, not_or] at h
+  have := h c hc
+  simp [C16.isBreak, this.1, this.2]
+
+theorem isUserHostmask_lfCore {h : Str} (hh : C03.isUserHostmask h = true) : C16.noBreak (C16.lfCore h) := by
+  unfold C03.isUserHostmask at hh
+  simp only [Bool.and_eq_true, List.all_eq_true, Bool.not_eq_true'] at hh
+  have hall := hh.1
+  unfold C16.lfCore
+  have key : ∀ (b : Str), (∀ x ∈ b, isSpace x = false) → C16.noBreak b := by
+    intro b hb c hc
+    have := hb c hc
+    cases hbk : C16.isBreak c with
+    | false => rfl
+    | true =>
+      simp only [C16.isBreak, Bool.or_eq_true, decide_eq_true_eq] at hbk
+      rcases hbk with rfl | rfl <;> revert this <;> decide
+  by_cases hl : h.getLast? = some '\n'
+  · have e : (h.getLast? == some '\n') = true := by simp [hl]
+    simp only [e, if_true] at hall
+    simp only [hl, if_true]
+    exact key _ hall
+  · have e : (h.getLast? == some '\n') = false := by simpa using hl
+    simp only [e, Bool.false_eq_true, if_false] at hall
+    simp only [hl, if_false]
+    exact key _ hall
+
+section
+open C16
+
+theorem safe_name {u : User} (h : SafeUser u) {n : Str} (hn : noBreak n) : SafeUser { u with name := n } :=
+  ⟨hn, h.password, h.caps, h.hostmasks, h.nicks, h.gpgkeys⟩
+theorem safe_hostmasks {u : User} (h : SafeUser u) {hs : List Str} (hh : ∀ x ∈ hs, noBreak (lfCore x)) :
+    SafeUser { u with hostmasks := hs } :=
+  ⟨h.name, h.password, h.caps, hh, h.nicks, h.gpgkeys⟩
+theorem safe_password {u : User} (h : SafeUser u) {p : Str} (b : Bool) (hp : noBreak p) :
+    SafeUser { u with hashed := b, password := p } :=
+  ⟨h.name, hp, h.caps, h.hostmasks, h.nicks, h.gpgkeys⟩
+theorem safe_secure {u : User} (h : SafeUser u) (b : Bool) : SafeUser { u with secure := b } :=
+  ⟨h.name, h.password, h.caps, h.hostmasks, h.nicks, h.gpgkeys⟩
+
+theorem user_safe {st : St} (h : SafeUsers st) {id : Nat} {u : User} (hu : st.user id = some u) : SafeUser u :=
+  h (id, u) (user_mem hu)
+
+theorem safe_setUser {cfg : Cfg} {st : St} (h : SafeUsers st) {id : Nat} {u' : User} (hu' : SafeUser u') :
+    SafeUsers (st.setUser cfg id u').1 := by
+  intro p hp
+  rcases mem_setUser hp with rfl | hp
+  · exact hu'
+  · exact h p hp
+
+theorem safe_put_setUser {cfg : Cfg} {st : St} (h : SafeUsers st) {id : Nat} {u' u'' : User}
+    (hu' : SafeUser u') (hu'' : SafeUser u'') : SafeUsers (putUser (st.setUser cfg id u').1 id u'') := by
+  intro p hp
+  rcases mem_putUser hp with rfl | hp
+  · exact hu''
+  · exact safe_setUser h hu' p hp
+
+theorem safe_finishSet {cfg : Cfg} {st st0 : St} (h : SafeUsers st) (h0 : st0.users = st.users) {id : Nat}
+    {u' : User} (hu' : SafeUser u') : SafeUsers (finishSet cfg st0 id u').1 := by
+  intro p hp
+  rcases mem_finishSet hp with rfl | hp
+  · exact hu'
+  · rw [h0] at hp; exact h p hp
+
+theorem safe_of_users_eq {st st' : St} (h : SafeUsers st) (e : st'.users = st.users) : SafeUsers st' := by
+  intro p hp; rw [e] at hp; exact h p hp
+
+theorem ircSetAdd_safe {hs : List Str} {x : Str} (h : ∀ y ∈ hs, noBreak (lfCore y)) (hx : noBreak (lfCore x)) :
+    ∀ y ∈ ircSetAdd hs x, noBreak (lfCore y) := by
+  intro y hy
+  unfold ircSetAdd at hy
+  split at hy
+  · exact h y hy
+  · rcases List.mem_append.mp hy with hy | hy
+    · exact h y hy
+    · simp only [List.mem_singleton] at hy; subst hy; exact hx
+
+theorem capRemove_safe {caps caps' : List Str} {c : Str} (h : C03.CapSet.remove caps c = .ok caps')
+    (hc : ∀ x ∈ caps, clean x = true ∧ C03.toLower x = x) : ∀ x ∈ caps', clean x = true ∧ C03.toLower x = x :=
+  fun x hx => hc x (mem_capRemove h hx)
+
+end
+
+/-- closes the goals `SafeUsers (…).1` of the case analysis of a command body -/
+macro "safe_auto" h:term "," hu:term : tactic => `(tactic|
+  ((repeat' split) <;>
+   (first
+    | with_reducible exact $h
+    | (refine safe_finishSet $h ?_ (user_safe $h $hu); rfl)
+    | exact safe_finishSet $h rfl (safe_secure (user_safe $h $hu) _)
+    | exact safe_finishSet $h rfl (safe_hostmasks (user_safe $h $hu) (fun x hx => (by cases hx)))
+    | exact safe_finishSet $h rfl (safe_hostmasks (user_safe $h $hu)
+        (fun x hx => (user_safe $h $hu).hostmasks x (List.mem_filter.mp hx).1))
+    | exact safe_finishSet $h rfl (C16.safeUser_caps (user_safe $h $hu) _
+        (capRemove_safe (by assumption) (user_safe $h $hu).caps))
+    | exact safe_finishSet $h rfl (C16.safeUser_caps (user_safe $h $hu) _
+        (C16.uadd_safe (by assumption) (user_safe $h $hu).caps))
+    | with_reducible exact safe_of_users_eq $h rfl
+    | (intro p hp; exact $h p (List.mem_filter.mp hp).1))))
+
+/-- commands other than a reload keep every stored field line-safe -/
+theorem body_safe (cfg : Cfg) (hcfg : HashSafe cfg) (st : St) (pfx : Str) (hpfx : C16.noBreak pfx) (c : Cmd)
+    (hc : c ≠ .flushReload) (h : SafeUsers st) : SafeUsers (body cfg st pfx c).1 := by
+  have triv : st.user 0 = st.user 0 := rfl
+  cases c with
+  | flushReload => exact absurd rfl hc
+  | register name pw =>
+    simp only [body, doRegister]
+    repeat' (first
+      | exact h
+      | (intro p hp
+         simp only [List.mem_append, List.mem_singleton] at hp
+         rcases hp with hp | rfl
+         · exact h p hp
+         · rename_i hlb _ _ _
+           refine ⟨noBreak_of_not_hasLineBreak (by simpa using hlb), hcfg _, fun c hc => (by cases hc), ?_,
+             fun c hc => (by cases hc), fun c hc => (by cases hc)⟩
+           intro x hx
+           simp only [] at hx
+           split at hx
+           · simp only [List.mem_singleton] at hx
+             subst hx
+             rw [(C16.lfCore_of_noBreak hpfx).1]; exact hpfx
+           · cases hx)
+      | split)
+  | unregister name pw =>
+    simp only [body]
+    refine withOther_ind (fun r => SafeUsers r.1) h ?_
+    intro id u _ hu
+    safe_auto h, hu
+  | changename name newname pw =>
+    simp only [body]
+    split
+    · exact h
+    · refine withOther_ind (fun r => SafeUsers r.1) h ?_
+      intro id u _ hu
+      split
+      · exact h
+      · split
+        · exact h
+        · rename_i hlb
+          split
+          · exact safe_finishSet h rfl (safe_name (user_safe h hu) (noBreak_of_not_hasLineBreak (by simpa using hlb)))
+          · exact h
+  | identify name pw =>
+    simp only [body]
+    split
+    · exact h
+    · refine withOther_ind (fun r => SafeUsers r.1) h ?_
+      intro id u _ hu
+      split
+      · split
+        · refine safe_finishSet h ?_ (user_safe h hu)
+          rfl
+        · exact h
+      · exact h
+  | unidentify =>
+    simp only [body]
+    refine withCaller_ind (fun r => SafeUsers r.1) h ?_
+    intro id u hu
+    refine safe_finishSet h ?_ (user_safe h hu)
+    rfl
+  | hostmaskAdd name hostmask pw =>
+    simp only [body]
+    split
+    · exact h
+    · refine withOther_ind (fun r => SafeUsers r.1) h ?_
+      intro id u _ hu
+      split
+      · exact h
+      · split
+        · exact h
+        · rename_i hhm
+          have hsafe : ∀ y ∈ C16.ircSetAdd u.hostmasks hostmask, C16.noBreak (C16.lfCore y) :=
+            ircSetAdd_safe (user_safe h hu).hostmasks (isUserHostmask_lfCore (by simpa using hhm))
+          have s1 := safe_hostmasks (user_safe h hu) hsafe
+          have s2 : ∀ hs' : List Str, (∀ x ∈ hs', x ∈ C16.ircSetAdd u.hostmasks hostmask) →
+              C16.SafeUser { u with hostmasks := hs' } :=
+            fun hs' hsub => safe_hostmasks (user_safe h hu) (fun x hx => hsafe x (hsub x hx))
+          (repeat' split) <;>
+            first
+            | exact h
+            | exact safe_setUser h s1
+            | exact safe_put_setUser h s1 (s2 _ (fun x hx => (List.mem_filter.mp hx).1))
+            | exact safe_put_setUser h s1 s1
+  | hostmaskRemove name hostmask pw =>
+    simp only [body]
+    split
+    · exact h
+    · refine withOther_ind (fun r => SafeUsers r.1) h ?_
+      intro id u _ hu
+      safe_auto h, hu
+  | setPassword name old new =>
+    simp only [body]
+    split
+    · exact h
+    · refine withOther_ind (fun r => SafeUsers r.1) h ?_
+      intro id u _ hu
+      (repeat' split) <;>
+        first
+        | exact h
+        | exact safe_finishSet h rfl (safe_password (user_safe h hu) true (hcfg _))
+  | setSecure pw value =>
+    simp only [body]
+    split
+    · exact h
+    · refine withCaller_ind (fun r => SafeUsers r.1) h ?_
+      intro id u hu
+      safe_auto h, hu
+  | capAdd name cap0 =>
+    simp only [body]
+    refine withOther_ind (fun r => SafeUsers r.1) h ?_
+    intro id u _ hu
+    safe_auto h, hu
+  | capRemove name cap0 =>
+    simp only [body]
+    refine withOther_ind (fun r => SafeUsers r.1) h ?_
+    intro id u _ hu
+    safe_auto h, hu
+  | chanCapAdd chan name cap =>
+    simp only [body]
+    split
+    · exact h
+    · refine withOther_ind (fun r => SafeUsers r.1) h ?_
+      intro id u _ hu
+      safe_auto h, hu
+  | chanCapRemove chan name cap =>
+    simp only [body]
+    split
+    · exact h
+    · refine withOther_ind (fun r => SafeUsers r.1) h ?_
+      intro id u _ hu
+      safe_auto h, hu
+  | chanCapSet chan caps => simp only [body]; safe_auto h, triv
+  | chanCapUnset chan caps => simp only [body]; safe_auto h, triv
+  | chanSetDefault chan v => simp only [body]; safe_auto h, triv
+  | ignoreAdd h0 => simp only [body]; safe_auto h, triv
+  | ignoreRemove h0 => simp only [body]; safe_auto h, triv
+  | defaultCapAdd cap => simp only [body]; safe_auto h, triv
+  | defaultCapRemove cap => simp only [body]; safe_auto h, triv
+  | configCaps v => simp only [body]; safe_auto h, triv
+
+/-! ### commands never touch the reader's class attribute -/
+
+theorem setUser_cu (cfg : Cfg) (st : St) (id : Nat) (u : C16.User) : (st.setUser cfg id u).1.cu = st.cu := by
+  unfold St.setUser
+  split
+  · rfl
+  · simp only []
+    split
+    · rfl
+    · split
+      · rfl
+      · split <;> rfl
+    · split <;> rfl
+
+theorem finishSet_cu (cfg : Cfg) (st : St) (id : Nat) (u : C16.User) : (finishSet cfg st id u).1.cu = st.cu := by
+  unfold finishSet
+  simp only []
+  split
+  · exact setUser_cu cfg st id u
+  · show (putUser (st.setUser cfg id u).1 id u).cu = st.cu
+    exact setUser_cu cfg st id u
+
+macro "cu_auto" : tactic => `(tactic|
+  ((repeat' split) <;>
+   (first
+    | rfl
+    | exact finishSet_cu _ _ _ _
+    | exact setUser_cu _ _ _ _
+    | (show (putUser (St.setUser _ _ _ _).1 _ _).cu = _; exact setUser_cu _ _ _ _))))
+
+theorem body_cu (cfg : Cfg) (st : St) (pfx : Str) (c : Cmd) (hc : c ≠ .flushReload) :
+    (body cfg st pfx c).1.cu = st.cu := by
+  cases c with
+  | flushReload => exact absurd rfl hc
+  | register name pw => simp only [body, doRegister]; cu_auto
+  | unregister name pw =>
+    simp only [body]
+    refine withOther_ind (fun r => r.1.cu = st.cu) rfl ?_
+    intro id u _ _; cu_auto
+  | changename name newname pw =>
+    simp only [body]
+    split
+    · rfl
+    · refine withOther_ind (fun r => r.1.cu = st.cu) rfl ?_
+      intro id u _ _; cu_auto
+  | identify name pw =>
+    simp only [body]
+    split
+    · rfl
+    · refine withOther_ind (fun r => r.1.cu = st.cu) rfl ?_
+      intro id u _ _; cu_auto
+  | unidentify =>
+    simp only [body]
+    refine withCaller_ind (fun r => r.1.cu = st.cu) rfl ?_
+    intro id u _; cu_auto
+  | hostmaskAdd name hostmask pw =>
+    simp only [body]
+    split
+    · rfl
+    · refine withOther_ind (fun r => r.1.cu = st.cu) rfl ?_
+      intro id u _ _; cu_auto
+  | hostmaskRemove name hostmask pw =>
+    simp only [body]
+    split
+    · rfl
+    · refine withOther_ind (fun r => r.1.cu = st.cu) rfl ?_
+      intro id u _ _; cu_auto
+  | setPassword name old new =>
+    simp only [body]
+    split
+    · rfl
+    · refine withOther_ind (fun r => r.1.cu = st.cu) rfl ?_
+      intro id u _ _; cu_auto
+  | setSecure pw value =>
+    simp only [body]
+    split
+    · rfl
+    · refine withCaller_ind (fun r => r.1.cu = st.cu) rfl ?_
+      intro id u _; cu_auto
+  | capAdd name cap0 =>
+    simp only [body]
+    refine withOther_ind (fun r => r.1.cu = st.cu) rfl ?_
+    intro id u _ _; cu_auto
+  | capRemove name cap0 =>
+    simp only [body]
+    refine withOther_ind (fun r => r.1.cu = st.cu) rfl ?_
+    intro id u _ _; cu_auto
+  | chanCapAdd chan name cap =>
+    simp only [body]
+    split
+    · rfl
+    · refine withOther_ind (fun r => r.1.cu = st.cu) rfl ?_
+      intro id u _ _; cu_auto
+  | chanCapRemove chan name cap =>
+    simp only [body]
+    split
+    · rfl
+    · refine withOther_ind (fun r => r.1.cu = st.cu) rfl ?_
+      intro id u _ _; cu_auto
+  | chanCapSet chan caps => simp only [body]; cu_auto
+  | chanCapUnset chan caps => simp only [body]; cu_auto
+  | chanSetDefault chan v => simp only [body]; cu_auto
+  | ignoreAdd h0 => simp only [body]; cu_auto
+  | ignoreRemove h0 => simp only [body]; cu_auto
+  | defaultCapAdd cap => simp only [body]; cu_auto
+  | defaultCapRemove cap => simp only [body]; cu_auto
+  | configCaps v => simp only [body]; cu_auto
 
 end C02
